@@ -1025,7 +1025,7 @@ def r4(ctx):
             continue
         # the edge taken exactly for a FAILED/CANCELLED termination token, however the test is spelled (branches swapped
         # under `not`, guard clause, joined with the termination test by `and`)
-        relevant, edge, rest = _failing_edge(p, wo, n.ast, lambda s: s.endswith(".value"))
+        relevant, edge, rest = _failing_edge_at(p, wo, wg, n.id, lambda s: s.endswith(".value"))
         if not relevant:
             continue
         if edge is None:
@@ -1056,25 +1056,30 @@ def r4(ctx):
         if n.kind != "test":
             continue
         # the edge on which "all output ports were received" holds: `==` on the true edge, `!=` / `not ==` on the false edge
-        cmp_, edge = None, None
-        for kind in ("t", "f"):
-            ats = atoms(n.ast, kind == "t")
-            if len(ats) == 1 and ats[0][1] and isinstance(ats[0][0], ast.Compare) and len(ats[0][0].ops) == 1:
-                cmp_, edge = ats[0][0], kind
+        # ... read through plain temporaries (`_n = len(self.received)` / `if _n == len(...)`): the first form of the test
+        # that compares the two lengths decides; the temporaries must have been taken after the port was recorded
+        rec = lambda x: is_len_of(x, lambda y: is_self_attr(y, "received"))  # noqa: E731
+        outs = lambda x: is_len_of(x, lambda y: isinstance(y, ast.Attribute) and y.attr == "output_ports" and is_self_attr(y.value, "workflow"))  # noqa: E731
+        cmp_, edge, tdefs = None, None, []
+        for form, defs in _test_forms(wo, wg, n.id):
+            for kind in ("t", "f"):
+                ats = atoms(form, kind == "t")
+                if len(ats) == 1 and ats[0][1] and isinstance(ats[0][0], ast.Compare) and len(ats[0][0].ops) == 1:
+                    c = ats[0][0]
+                    if (rec(c.left) and outs(c.comparators[0])) or (rec(c.comparators[0]) and outs(c.left)):
+                        cmp_, edge, tdefs = c, kind, defs
+            if cmp_ is not None:
+                break
         if cmp_ is None:
             continue
         a, b = cmp_.left, cmp_.comparators[0]
-        rec = lambda x: is_len_of(x, lambda y: is_self_attr(y, "received"))  # noqa: E731
-        outs = lambda x: is_len_of(x, lambda y: isinstance(y, ast.Attribute) and y.attr == "output_ports" and is_self_attr(y.value, "workflow"))  # noqa: E731
-        if not ((rec(a) and outs(b)) or (rec(b) and outs(a))):
-            continue
         cl_nodes = [i for i in wg.nodes if any(self_call(c, "close") and _awaited(c) for c in node_calls(wg, wg.nodes[i]))]
         # first effective statement of the true branch (`pass` / logging / docstrings in front of it do not matter)
         tsucc = wg.real_succ(n.id, edge)
         recs = [i for i in wg.nodes if any(
             method_call(c, "append") and is_self_attr(c.func.value, "received") for c in node_calls(wg, wg.nodes[i]))]
         ok = (isinstance(cmp_.ops[0], (ast.Eq, ast.GtE)) and (rec(a) or isinstance(cmp_.ops[0], ast.Eq)) and bool(cl_nodes)
-              and bool(tsucc) and all(s in cl_nodes for s in tsucc) and bool(recs) and wg.dominates(recs, n.id))
+              and bool(tsucc) and all(s in cl_nodes for s in tsucc) and bool(recs) and all(wg.dominates(recs, x) for x in [n.id] + list(tdefs)))
     ctx.ob("R4", "_wait_outputs closes the executor when the last output port terminated", ok, func=wo, node=wo.node, instance="_wait_outputs:close",
            message="_wait_outputs does not close the executor exactly when every output port delivered its termination token")
     _cancel_rule(ctx)
@@ -1234,6 +1239,132 @@ def _failing_edge(p, f, test, subject_pred):
     return relevant, None, []
 
 
+# ---- a test read through the reaching definitions of its operands (`_l = len(xs)` / `if _l == n:` is `if len(xs) == n:`)
+
+
+def _eager_names(e):
+    """Load-context Names of `e` that are evaluated with `e` itself (not inside a lambda / comprehension scope)."""
+    out, todo = [], [e]
+    while todo:
+        x = todo.pop()
+        if isinstance(x, (ast.Lambda, ast.ListComp, ast.SetComp, ast.DictComp, ast.GeneratorExp)):
+            continue
+        if isinstance(x, ast.Name) and isinstance(x.ctx, ast.Load):
+            out.append(x)
+        todo.extend(ast.iter_child_nodes(x))
+    return out
+
+
+def _subst(e, sub):
+    """`e` with the Name objects of `sub` {id(node): expression} replaced.  Only the spine above a replaced name is
+    rebuilt: every other node stays the analysed object (so it can still be located in the CFG), nothing is deep-copied."""
+    if id(e) in sub:
+        return sub[id(e)]
+    changed, fields = False, {}
+    for name, val in ast.iter_fields(e):
+        if isinstance(val, ast.AST):
+            nv = _subst(val, sub)
+            changed = changed or nv is not val
+            fields[name] = nv
+        elif isinstance(val, list):
+            nl = [_subst(x, sub) if isinstance(x, ast.AST) else x for x in val]
+            changed = changed or any(a is not b for a, b in zip(nl, val))
+            fields[name] = nl
+        else:
+            fields[name] = val
+    if not changed:
+        return e
+    return ast.copy_location(type(e)(**fields), e)
+
+
+_PURE_BUILTINS = {"len", "isinstance", "bool", "int", "str", "repr", "min", "max", "abs", "any", "all", "sum", "sorted", "list", "tuple",
+                  "set", "frozenset", "dict", "type", "id", "range", "enumerate", "zip"}
+
+
+def _temp_value(f, g, name_node, tid):
+    """(value, def node id) when the local read by `name_node` is, at test node `tid`, a plain temporary: exactly one
+    reaching definition, a plain `x = <expr>` (single Name target, no await / walrus in the value) evaluated on every path
+    to the test, and nothing between that assignment and the test can change what `<expr>` reads -- the nodes in between
+    are `pass` / logging, or await-free statements and tests that call nothing but pure builtins (`len`, `isinstance`, ..)
+    and store into nothing `<expr>` mentions.  None
+    otherwise (the name is then left alone: a copy taken *before* the state it reads was changed is not the same test)."""
+    ds = reaching_defs(f, name_node.id, name_node)
+    if len(ds) != 1:
+        return None
+    d = ds[0]
+    if d.kind != "assign" or d.index is not None or d.value is None or not isinstance(d.stmt, ast.Assign):
+        return None
+    if len(d.stmt.targets) != 1 or not isinstance(d.stmt.targets[0], ast.Name):
+        return None
+    if any(isinstance(x, (ast.Await, ast.NamedExpr, ast.Yield, ast.YieldFrom)) for x in ast.walk(d.value)):
+        return None
+    ids = _def_node_ids(g, d)
+    if len(ids) != 1 or ids[0] == tid or not g.dominates(ids[0], tid, kinds=ALL):
+        return None
+    di = ids[0]
+    reads = {x.id for x in ast.walk(d.value) if isinstance(x, ast.Name)} | {name_node.id}
+    for i in g.reach([di], avoid=[tid], kinds=ALL):
+        if i in (di, tid) or g.path(i, [tid], avoid=[di], kinds=ALL) is None:
+            continue
+        if g.is_trivial(i):
+            continue
+        n = g.nodes[i]
+        if n.kind not in ("stmt", "test") or n.has_await():
+            return None
+        if any(not (isinstance(c.func, ast.Name) and c.func.id in _PURE_BUILTINS and not defs_of(f, c.func.id)) for c in node_calls(g, n)):
+            return None
+        for x in n.walk():
+            if isinstance(x, ast.Name) and not isinstance(x.ctx, ast.Load) and x.id in reads:
+                return None
+            if isinstance(x, (ast.Attribute, ast.Subscript)) and not isinstance(x.ctx, ast.Load):
+                root = x
+                while isinstance(root, (ast.Attribute, ast.Subscript)):
+                    root = root.value
+                if not isinstance(root, ast.Name) or root.id in reads:
+                    return None
+    return d.value, di
+
+
+def _test_forms(f, g, tid, depth: int = 3):
+    """[(expression, def node ids)]: the test of CFG node `tid` as written, then with its plain temporaries replaced by
+    the expressions they hold (one level per entry, bound `depth`); the ids are the assignments read through."""
+    cache = g.__dict__.setdefault("_c04_test_forms", {})
+    if tid in cache:
+        return cache[tid]
+    e, used = g.nodes[tid].ast, []
+    out = [(e, [])]
+    for _ in range(depth):
+        sub = {}
+        for nm in _eager_names(e):
+            r = _temp_value(f, g, nm, tid)
+            if r is not None:
+                sub[id(nm)] = r[0]
+                used.append(r[1])
+        if not sub:
+            break
+        e = _subst(e, sub)
+        out.append((e, sorted(set(used))))
+    cache[tid] = out
+    return out
+
+
+def _failing_edge_at(p, f, g, tid, subject_pred):
+    """`_failing_edge` of the test node `tid`, read through plain temporaries (`_s = statuses[-1]` / `if _s in (..)`):
+    the first form of the test -- as written, then one level of temporaries at a time -- that compares an accepted
+    subject with Status constants decides."""
+    return _failing_form_at(p, f, g, tid, subject_pred)[:3]
+
+
+def _failing_form_at(p, f, g, tid, subject_pred):
+    """(relevant, edge, rest, def node ids): `_failing_edge_at` plus the assignments the deciding form was read through."""
+    res = (False, None, [], [])
+    for e, defs in _test_forms(f, g, tid):
+        res = _failing_edge(p, f, e, subject_pred) + (defs,)
+        if res[0]:
+            break
+    return res
+
+
 def _exists_failing(p, f, a, v, depth: int = 3):
     """The atom `a` having truth `v` means exactly "some step of the whole `self.workflow.steps` map has status FAILED or
     CANCELLED": `any(<failing test on x.status> for x in <all steps>)` true, `all(<test> ...)` false with the test false
@@ -1292,7 +1423,7 @@ def _failing_checks(p, f, loops):
         for n in g.nodes.values():
             if n.kind != "test" or not any(x is n.ast for x in ast.walk(lp)):
                 continue
-            relevant, edge, rest = _failing_edge(p, f, n.ast, lambda s: s == f"{v}.status")
+            relevant, edge, rest = _failing_edge_at(p, f, g, n.id, lambda s: s == f"{v}.status")
             if not relevant:
                 continue
             # the edge taken exactly for FAILED/CANCELLED (no further condition) must raise, whichever branch that is
@@ -1537,8 +1668,11 @@ def r5(ctx):
         for n in g.nodes.values():
             if n.kind != "test" or n.id not in body:
                 continue
-            relevant, edge, rest = _failing_edge(p, f, n.ast, lambda subj: subj == unparse(val) or subj == f"{lst}[-1]")
+            relevant, edge, rest, tdefs = _failing_form_at(p, f, g, n.id, lambda subj: subj == unparse(val) or subj == f"{lst}[-1]")
             if not relevant or not (g.dominates(n.id, i) or g.dominates(i, n.id)):
+                continue
+            # a temporary the test reads (`_s = statuses[-1]`) must have been taken after the status was recorded
+            if any(not g.dominates(i, di) for di in tdefs) and not g.dominates(n.id, i):
                 continue
             if edge is None or rest:
                 why = "the guard next to it is not taken exactly for FAILED/CANCELLED"
@@ -2355,4 +2489,33 @@ VARIANTS += [
     V("split task loop: re-arms retrieve_inputs after the termination token", SFILE, XSTEP, _XOLD,
       _xsplit(_XLOOP.replace("            if check_termination(inputs.values()):\n",
                              "            if check_termination(inputs.values()):\n                unfinished.add(asyncio.create_task(self._get_inputs(input_ports), name='retrieve_inputs'))\n")), "R3"),
+]
+
+# fx12: operands of a test held in a plain temporary (`_l = len(self.received)` / `if _l == ...`): the test is read through the
+# single reaching definition of the local; a temporary taken before the state it reads was changed is a different test
+_WCLOSE = "if len(self.received) == len(self.workflow.output_ports):"
+_XTERM = "if statuses[-1] in (Status.CANCELLED, Status.FAILED):"
+_XAPPEND = "statuses.append(_reduce_statuses([t.value for t in inputs.values()]))"
+VARIANTS += [
+    V("benign: _wait_outputs close test reads len(self.received) through a temporary", EFILE, f"{EXEC}._wait_outputs",
+      _WCLOSE, "_sf_l1 = len(self.received)\n                if _sf_l1 == len(self.workflow.output_ports):", None),
+    V("benign: _wait_outputs close test, both lengths through temporaries (chained copy, pass and logging in between)", EFILE, f"{EXEC}._wait_outputs",
+      _WCLOSE, "n_out = len(self.workflow.output_ports)\n                n_got = len(self.received)\n                pass\n                seen = n_got\n"
+               "                logger.debug('checking the output ports')\n                if not seen != n_out:", None),
+    V("benign: ExecuteStep.run termination-branch status test through a temporary", SFILE, _S + "ExecuteStep.run",
+      _XTERM, "_sf_l5 = statuses[-1]\n                        if _sf_l5 in (Status.CANCELLED, Status.FAILED):", None),
+    V("benign: ExecuteStep.run job-result status test through a temporary", SFILE, _S + "ExecuteStep.run",
+      "if job_status in (Status.CANCELLED, Status.FAILED):", "outcome = job_status\n                    if outcome in (Status.CANCELLED, Status.FAILED):", None),
+    V("_wait_outputs close test: the length was taken before the port was recorded", EFILE, f"{EXEC}._wait_outputs",
+      "self.received.append(task_name)\n                " + _WCLOSE,
+      "n_got = len(self.received)\n                self.received.append(task_name)\n                if n_got == len(self.workflow.output_ports):", "R4"),
+    V("_wait_outputs close test: the temporary holds another length", EFILE, f"{EXEC}._wait_outputs",
+      _WCLOSE, "n_got = len(self.output_tasks)\n                if n_got == len(self.workflow.output_ports):", "R4"),
+    V("ExecuteStep.run: the tested temporary was taken before the status was recorded", SFILE, _S + "ExecuteStep.run",
+      _XAPPEND + "\n                        " + _XTERM,
+      "last = statuses[-1]\n                        " + _XAPPEND + "\n                        if last in (Status.CANCELLED, Status.FAILED):", "R5"),
+    V("ExecuteStep.run: the tested temporary holds the first recorded status", SFILE, _S + "ExecuteStep.run",
+      _XTERM, "first = statuses[0]\n                        if first in (Status.CANCELLED, Status.FAILED):", "R5"),
+    V("ExecuteStep.run: the tested temporary is re-bound before the test", SFILE, _S + "ExecuteStep.run",
+      _XTERM, "last = statuses[-1]\n                        if inputs:\n                            last = Status.COMPLETED\n                        if last in (Status.CANCELLED, Status.FAILED):", "R5"),
 ]
